@@ -395,8 +395,11 @@ struct C07;
 
 /// Larger populations: thresholds such as "k*k <= n" or "16*k <= n" select other code paths; for n <= 16 the
 /// entrant sets are still tracked, beyond that only the winner-rank law is decided.
-const BIG_CELLS: [(usize, usize); 14] =
-    [(9, 3), (12, 2), (16, 3), (16, 4), (25, 2), (25, 5), (40, 3), (100, 2), (100, 10), (150, 4), (300, 2), (300, 3), (1000, 2), (1000, 31)];
+const BIG_CELLS: [(usize, usize); 17] = [
+    (9, 3), (12, 2), (16, 3), (16, 4), (25, 2), (25, 5), (40, 3), (100, 2), (100, 10), (150, 4), (300, 2), (300, 3), (1000, 2), (1000, 31),
+    // tournaments over nearly the whole population ("choose the few that are left out" code paths)
+    (130, 128), (200, 197), (260, 256),
+];
 const SUBSET_TRACKING_MAX_N: usize = 16;
 
 fn dist_cells(max_n: usize) -> Vec<(usize, usize)> {
@@ -480,7 +483,15 @@ impl Check for C07 {
                 rng: RngSpec::swarm(g),
             };
         }
-        let n = if g.chance(1, 40) {
+        let huge = g.chance(1, 4000);
+        let n = if huge {
+            // beyond 16 bits: 65 536 .. 250 000 individuals
+            match g.below(5) {
+                0 => 65_536,
+                1 => 131_072 + g.urange(1, 4095),
+                _ => g.log_uniform(65_536, 250_000),
+            }
+        } else if g.chance(1, 40) {
             g.log_uniform(15, 3000)
         } else if g.chance(1, 4) {
             g.urange(9, 14)
@@ -503,13 +514,29 @@ impl Check for C07 {
         };
         let n = pair.map_or(n, |(nn, _)| nn);
         let spread = if n > 14 && g.coin() { g.range(1, n as u64) as i32 } else { g.range(1, 4) as i32 };
-        let vals: Vec<i32> = (0..n).map(|_| g.range(0, spread as u64) as i32).collect();
+        let mut vals: Vec<i32> = (0..n).map(|_| g.range(0, spread as u64) as i32).collect();
+        if n >= 1000 && g.coin() {
+            // a unique best and a unique worst individual at the ends of the population (or anywhere)
+            let hi = match g.below(3) {
+                0 => 0,
+                1 => n - 1,
+                _ => g.urange(0, n - 1),
+            };
+            let lo = match g.below(3) {
+                0 => n - 1 - usize::from(hi == n - 1),
+                1 => usize::from(hi == 0),
+                _ => (hi + 1 + g.urange(0, n - 2)) % n,
+            };
+            vals[hi] = spread + 7;
+            vals[lo] = -7;
+        }
         let which = match g.below(4) {
             0 => Which::Best,
             1 => Which::Worst,
             _ => Which::Tournament(match g.below(5) {
                 0 => 1,
-                1 => n,
+                1 if !huge => n,
+                1 => g.urange(1, 8),
                 // small tournaments in large populations and large ones in small populations alike
                 2 => g.log_uniform(1, n),
                 _ => g.urange(1, n),
